@@ -125,7 +125,7 @@ structure World where
   bind : List (Nat × Nat)            -- token → decimals (first entry wins)
   slot : List ((Nat × Nat) × Nat)    -- bound path: (token, account) → contract slot, token units
   raw : List ((Nat × Nat) × Nat)     -- unbound path: (token, account) → account data entry
-  deriving Repr
+  deriving DecidableEq, Repr
 
 def World.empty : World := ⟨[], [], []⟩
 
